@@ -653,6 +653,8 @@ def declared_type(backend: str, files: Dict[str, str]) -> Optional[str]:
 # --------------------------------------------------------------------------------------------
 ECHO_HEAD = r"""#include <cstdio>
 #include <cstddef>
+#include <cstring>
+static size_t seen_by_callee(const char* p){ return strlen(p); }
 static void hx(const void* p, size_t n){ const unsigned char* b=(const unsigned char*)p; for(size_t i=0;i<n;i++) printf("%02x", b[i]); printf("\n"); }
 static const char* tn(int){return "int";} static const char* tn(unsigned){return "unsigned int";}
 static const char* tn(long){return "long";} static const char* tn(unsigned long){return "unsigned long";}
@@ -667,7 +669,9 @@ def echo_program(items: List[Tuple[str, str]]) -> bytes:
     """items: ('S', literal text) string literal / ('N', text) numeric or bool expression"""
     out = [ECHO_HEAD]
     for i, (k, text) in enumerate(items):
-        if k == "S":
+        if k == "C":
+            out.append("{ printf(\"%d C %%zu\\n\", seen_by_callee(\n%s\n)); }\n" % (i, text))
+        elif k == "S":
             out.append("{ static const char s[] = \n%s\n; printf(\"%d S %%zu \", sizeof(s)-1); hx(s, sizeof(s)-1); }\n" % (text, i))
         else:
             out.append("{ auto v = \n%s\n; printf(\"%d N %%s \", tn(v)); hx(&v, sizeof(v) > 10 ? 10 : sizeof(v)); }\n" % (text, i))
@@ -689,6 +693,10 @@ def run_echo(items: List[Tuple[str, str]], std: Optional[str] = None) -> Dict[st
             m = re.match(r"^(\d+) S (\d+) ([0-9a-f]*)$", l)
             if m:
                 res[int(m.group(1))] = ("S", bytes.fromhex(m.group(3)))
+                continue
+            m = re.match(r"^(\d+) C (\d+)$", l)
+            if m:
+                res[int(m.group(1))] = ("C", int(m.group(2)))
                 continue
             m = re.match(r"^(\d+) N ([a-z ]+) ([0-9a-f]*)$", l)
             if m:
@@ -988,36 +996,83 @@ def book_requests(backend: str, tree: str, leaves) -> List[Dict[str, Any]]:
     return reqs
 
 
-def check_book_lines(ctx, case, backend, tree, leaves, impl_lines: Dict[str, List[str]], model: Dict[str, Any], stream: str, known_key: Optional[str] = None) -> bool:
-    """Spec (nameAt on the implementation's lines) and tie (model lines = implementation lines). Returns True if the Spec held."""
-    good = True
-    name_reqs, where = [], []
+def book_compare(ctx, case, backend, tree, impl_lines: Dict[str, List[str]], model: Dict[str, Any], stream: str, known_key: Optional[str] = None):
+    """The tie (model lines = implementation lines) now; returns the `nameat` requests that evaluate the Spec on the
+    implementation's own lines, at the places the regenerated table gives, with what each must denote."""
+    reqs, where = [], []
     for which in ("book", "fill"):
         il, ml = impl_lines[which], model[which]
-        if [l for l in il] != [m["line"] for m in ml]:
+        if list(il) != [m["line"] for m in ml]:
             ctx.disagreement(f"{stream}-{which}-lines", case, [m["line"] for m in ml], il)
-        # the Spec is evaluated on the implementation's own lines, at the place the (regenerated) table gives
         for k, m in enumerate(ml):
             if m["slot"] is None or k >= len(il):
                 continue
             want = tree if m["slot"]["kind"] == "tree" else m["name"]
-            name_reqs.append({"op": "nameat", "off": m["slot"]["off"], "line": cp(il[k])})
-            where.append((which, k, want, il[k]))
-    ans = ctx.driver(DRIVER, name_reqs)
-    for (which, k, want, line), a in zip(where, ans):
+            reqs.append({"op": "nameat", "off": m["slot"]["off"], "line": cp(il[k])})
+            where.append({"case": case, "backend": backend, "which": which, "want": want, "line": il[k], "key": known_key})
+    # second, table-independent oracle: the strings the implementation's booking lines carry
+    names = [tree] + [m["name"] for m in model["book"] if m["name"] is not None]
+    reqs.append({"op": "linestrs", "lines": [cp(l) for l in impl_lines["book"]]})
+    where.append({"case": case, "backend": backend, "which": "book", "carried": names, "line": " | ".join(impl_lines["book"]), "key": known_key})
+    return reqs, where
+
+
+def book_judge(ctx, where, answers) -> int:
+    bad = 0
+    for w, a in zip(where, answers):
         if "bad" in a:
             continue
+        if "carried" in w:
+            lits = None if a.get("lits") is None else [uncp(x) for x in a["lits"]]
+            missing = [n_ for n_ in w["carried"] if lits is None or n_ not in lits]
+            if missing:
+                bad += 1
+                ctx.violation(
+                    key=w["key"] or f"name:{w['backend']}:carried:{missing[0]!r}",
+                    what=f"on {w['backend']}: the booking lines `{w['line']}` do not carry the name(s) {missing!r} as C++ string literals (string literals found: {lits!r})",
+                    case=w["case"],
+                    observed={"lines": w["line"], "string_literals": lits},
+                    how="visitor.create_book_ttree_obj(tree, leaves).emit(...) / the pipeline with ResultTTree(..., names, tree, file)",
+                )
+            continue
         got = uncp(a.get("v"))
-        if got != want:
-            good = False
+        if got != w["want"]:
+            bad += 1
             ctx.violation(
-                key=known_key or f"name:{backend}:{which}:{want!r}",
-                what=f"on {backend}: the {which} line `{line}` does not carry the name {want!r} as a C++ string literal (the literal there denotes {got!r})",
-                case=case,
-                observed={"line": line, "literal_denotes": got},
+                key=w["key"] or f"name:{w['backend']}:{w['which']}:{w['want']!r}",
+                what=f"on {w['backend']}: the {w['which']} line `{w['line']}` does not carry the name {w['want']!r} as a C++ string literal (the literal there denotes {got!r})",
+                case=w["case"],
+                observed={"line": w["line"], "literal_denotes": got},
                 how="visitor.create_book_ttree_obj(tree, leaves).emit(...) / the pipeline with ResultTTree(..., names, tree, file)",
             )
-    return good
+    return bad
+
+
+def check_book_lines(ctx, case, backend, tree, leaves, impl_lines, model, stream: str, known_key: Optional[str] = None) -> bool:
+    reqs, where = book_compare(ctx, case, backend, tree, impl_lines, model, stream, known_key)
+    return book_judge(ctx, where, ctx.driver(DRIVER, reqs)) == 0
+
+
+def plain_filter(ctx, names: List[str]) -> Dict[str, bool]:
+    """the hypothesis of names_verbatim_partial, judged by the Lean predicate itself"""
+    names = sorted(set(names))
+    hyp = ctx.driver(DRIVER, [{"op": "hyp", "s": cp(s)} for s in names])
+    return {s: h.get("plain", False) for s, h in zip(names, hyp)}
+
+
+def model_books(ctx, jobs: List[Tuple[str, str, List[Tuple[str, str]]]]) -> List[Optional[Dict[str, Any]]]:
+    """the model's booking / fill lines for many (backend, tree, leaves) in one driver call"""
+    reqs, spans = [], []
+    for b, tree, leaves in jobs:
+        r = book_requests(b, tree, leaves)
+        spans.append((len(reqs), len(r)))
+        reqs += r
+    ans = ctx.driver(DRIVER, reqs)
+    out = []
+    for (b, tree, leaves), (o, k) in zip(jobs, spans):
+        a = ans[o : o + k]
+        out.append(None if any("bad" in x for x in a) else compose_book(a[:-1], a[-1], leaves))
+    return out
 
 
 def book_stream(ctx, n: int):
@@ -1028,35 +1083,26 @@ def book_stream(ctx, n: int):
         tree = gen_name(rng)
         leaves = [(gen_name(rng), "_v%d" % k) for k in range(rng.choice([1, 1, 2, 3]))]
         cases.append((b, tree, leaves))
-    # the generator stays inside the hypothesis of names_verbatim_partial, judged by the Lean predicate itself
-    names = sorted({x for _, t, ls in cases for x in [t] + [n for n, _ in ls]})
-    hyp = ctx.driver(DRIVER, [{"op": "hyp", "s": cp(s)} for s in names])
-    plain = {s: h.get("plain", False) for s, h in zip(names, hyp)}
-    reqs, spans = [], []
-    kept = []
-    for b, tree, leaves in cases:
-        if not (plain.get(tree) and all(plain.get(n) for n, _ in leaves)):
-            ctx.count("book:dropped-not-plain")
+    plain = plain_filter(ctx, [x for _, t, ls in cases for x in [t] + [n_ for n_, _ in ls]])
+    kept = [c for c in cases if plain.get(c[1]) and all(plain.get(n_) for n_, _ in c[2])]
+    ctx.count("book:dropped-not-plain", len(cases) - len(kept))
+    models = model_books(ctx, kept)
+    reqs, where = [], []
+    for (b, tree, leaves), model in zip(kept, models):
+        if model is None:
             continue
-        r = book_requests(b, tree, leaves)
-        spans.append((len(reqs), len(r)))
-        reqs += r
-        kept.append((b, tree, leaves))
-    ans = ctx.driver(DRIVER, reqs)
-    for (b, tree, leaves), (o, k) in zip(kept, spans):
-        a = ans[o : o + k]
-        if any("bad" in x for x in a):
-            continue
-        model = compose_book(a[:-1], a[-1], leaves)
         impl = impl_book(b, tree, leaves)
-        case = {"stream": "book", "backend": b, "tree": cp(tree), "leaves": [[cp(n), x] for n, x in leaves]}
+        case = {"stream": "book", "backend": b, "tree": cp(tree), "leaves": [[cp(n_), x] for n_, x in leaves]}
         ctx.count(f"book:backend:{b}")
         ctx.count(f"book:leaves:{len(leaves)}")
-        ctx.case(["book", b, tree, leaves], nontrivial_const(tree) or any(nontrivial_const(n) for n, _ in leaves), {"backend": b, "tree": tree, "leaves": leaves, "lines": impl.get("book")})
+        ctx.case(["book", b, tree, leaves], nontrivial_const(tree) or any(nontrivial_const(n_) for n_, _ in leaves), {"backend": b, "tree": tree, "leaves": leaves, "lines": impl.get("book")})
         if "err" in impl:
             ctx.violation(key=f"book:{b}:{tree!r}", what=f"booking emitter of {b} raised {impl['err']} on plain names", case=case, observed=impl, how="visitor.create_book_ttree_obj(tree, leaves).emit(e)")
             continue
-        check_book_lines(ctx, case, b, tree, leaves, impl, model, "book")
+        r, w = book_compare(ctx, case, b, tree, impl, model, "book")
+        reqs += r
+        where += w
+    book_judge(ctx, where, ctx.driver(DRIVER, reqs))
 
 
 def names_pipeline_stream(ctx, n: int):
@@ -1076,23 +1122,22 @@ def names_pipeline_stream(ctx, n: int):
         else:
             src = f"Select(SelectMany(EventDataset('x'), lambda e: e.{coll}('J')), lambda j: {{__N1__: j.pt(), __N2__: j.eta()}})"
             tree = {"atlas": "atlas_xaod_tree", "cms_aod": "cms_aod_tree", "cms_miniaod": "cms_miniaod_tree"}[b]
-        a = build_ast(src, {"__N1__": n1, "__N2__": n2, "__T__": t})
-        via = "ast"
+        staged.append({"b": b, "style": style, "names": [n1, n2], "tree": tree, "t": t, "src": src})
+    plain = plain_filter(ctx, [x for s in staged for x in s["names"] + [s["tree"]]])
+    staged = [s for s in staged if all(plain.get(x) for x in s["names"] + [s["tree"]])]
+    jobs, live = [], []
+    for s in staged:
+        b = s["b"]
+        a = build_ast(s["src"], {"__N1__": s["names"][0], "__N2__": s["names"][1], "__T__": s["t"]})
+        s["via"] = "ast"
         if rng.random() < 0.25:
             a2 = qastle_roundtrip(a)
             if a2 is not None:
-                a, via = a2, "qastle"
+                a, s["via"] = a2, "qastle"
         r = run_query(b, a)
-        staged.append({"b": b, "style": style, "names": [n1, n2], "tree": tree, "r": r, "via": via, "src": src})
         ctx.check_time()
-    names = sorted({x for s in staged for x in s["names"] + [s["tree"]]})
-    hyp = ctx.driver(DRIVER, [{"op": "hyp", "s": cp(s)} for s in names])
-    plain = {s: h.get("plain", False) for s, h in zip(names, hyp)}
-    for s in staged:
-        b, r = s["b"], s["r"]
-        if not all(plain.get(x) for x in s["names"] + [s["tree"]]):
-            continue
         case = {"stream": "names", "backend": b, "style": s["style"], "via": s["via"], "names": [cp(x) for x in s["names"]], "tree": cp(s["tree"]), "query": s["src"]}
+        s["case"] = case
         ctx.count(f"names:style:{s['style']}")
         ctx.count(f"names:backend:{b}")
         ctx.count(f"names:via:{s['via']}")
@@ -1103,14 +1148,22 @@ def names_pipeline_stream(ctx, n: int):
         if r.get("tree") != s["tree"]:
             ctx.violation(key=f"names:{b}:descriptor:{s['tree']!r}", what=f"the returned descriptor names tree {r.get('tree')!r}, the query asked for {s['tree']!r}", case=case, observed=r.get("tree"), how="ExecutionInfo.result_rep.treename")
         il = extract_book_lines(b, r["files"][BACKENDS[b]["main"]])
-        leaves = [(nm, v) for nm, v in zip(s["names"], il["vars"])]
         if len(il["vars"]) != 2:
             ctx.disagreement("names-lines", case, "two Branch lines", il)
             continue
-        model = model_book_lines(ctx, b, s["tree"], leaves)
+        s["il"] = il
+        s["leaves"] = [(nm, v) for nm, v in zip(s["names"], il["vars"])]
+        jobs.append((b, s["tree"], s["leaves"]))
+        live.append(s)
+    models = model_books(ctx, jobs)
+    reqs, where = [], []
+    for s, model in zip(live, models):
         if model is None:
             continue
-        check_book_lines(ctx, case, b, s["tree"], leaves, il, model, "names")
+        r, w = book_compare(ctx, s["case"], s["b"], s["tree"], s["il"], model, "names")
+        reqs += r
+        where += w
+    book_judge(ctx, where, ctx.driver(DRIVER, reqs))
 
 
 def extract_book_lines(backend: str, text: str) -> Dict[str, Any]:
@@ -1232,24 +1285,52 @@ def lexer_validation(ctx, thorough: bool):
 # --------------------------------------------------------------------------------------------
 # known findings / fixed defects: replayed on every run
 # --------------------------------------------------------------------------------------------
-def replay_entry(ctx, e: Dict[str, Any]) -> Optional[Dict[str, Any]]:
-    """Returns None if the Spec holds on the entry's input now, else a description of the failure."""
+def run_lockstep(ctx, gens: List[Any]) -> List[Any]:
+    """Run generators that yield lists of driver requests and receive the answers; one driver call per round for all."""
+    results: List[Any] = [None] * len(gens)
+    pending: Dict[int, List[Dict[str, Any]]] = {}
+    for i, g in enumerate(gens):
+        try:
+            pending[i] = next(g)
+        except StopIteration as st:
+            results[i] = st.value
+    while pending:
+        order = list(pending)
+        reqs: List[Dict[str, Any]] = []
+        spans = {}
+        for i in order:
+            spans[i] = (len(reqs), len(pending[i]))
+            reqs += pending[i]
+        ans = ctx.driver(DRIVER, reqs)
+        nxt: Dict[int, List[Dict[str, Any]]] = {}
+        for i in order:
+            o, k = spans[i]
+            try:
+                nxt[i] = gens[i].send(ans[o : o + k])
+            except StopIteration as st:
+                results[i] = st.value
+        pending = nxt
+    return results
+
+
+def entry_steps(ctx, e: Dict[str, Any]):
+    """Generator (see run_lockstep). Result: None if the Spec holds on the entry's input now, else a description."""
     inp = e["input"]
     kind = inp["kind"]
+    fails: List[Dict[str, Any]] = []
     if kind == "const":
         v = value_of(inp["const"])
-        fails = []
-        for b in BACKENDS:
-            r = impl_const(v, b)
-            s = ctx.driver(DRIVER, [{"op": "spec", "c": const_json(v), "out": out_json(r)}])[0]
+        rs = [(b, impl_const(v, b)) for b in BACKENDS]
+        ans = yield [{"op": "spec", "c": const_json(v), "out": out_json(r)} for _, r in rs]
+        for (b, r), s in zip(rs, ans):
             if not s.get("holds", False):
-                fails.append({"backend": b, "observed": r, "why": s.get("why")})
+                fails.append({"backend": b, "observed": r, "why": s.get("why", s)})
         return {"fails": fails} if fails else None
     if kind == "position":
         v = value_of(inp["const"])
-        fails = []
+        pos = inp["position"]
+        found = []
         for b in BACKENDS:
-            pos = inp["position"]
             a = build_ast(POSITIONS[pos]["src"].replace("COLL", BACKENDS[b]["coll"]), {"__C__": v})
             r = run_query(b, a)
             if "err" in r:
@@ -1259,7 +1340,10 @@ def replay_entry(ctx, e: Dict[str, Any]) -> Optional[Dict[str, Any]]:
             if f is None:
                 fails.append({"backend": b, "observed": "constant not found in the generated file"})
                 continue
-            at = ctx.driver(DRIVER, [{"op": "at", "c": const_json(v), "text": cp(f[1]), "prev": ord(f[0])}])[0]
+            found.append((b, r, f))
+        ans = yield [{"op": "at", "c": const_json(v), "text": cp(f[1]), "prev": ord(f[0])} for _, _, f in found]
+        second = []
+        for (b, r, f), at in zip(found, ans):
             after = BANK_ANCHOR[b][1] if pos == "bank" else POSITIONS[pos]["after"]
             rest = uncp(at.get("rest"))
             if rest is None or not rest.startswith(after):
@@ -1267,48 +1351,60 @@ def replay_entry(ctx, e: Dict[str, Any]) -> Optional[Dict[str, Any]]:
             elif pos == "column":
                 ty = declared_type(b, r["files"])
                 text = f[1][:-1] if f[1].endswith(";") else f[1]
-                s = ctx.driver(DRIVER, [{"op": "spec", "c": const_json(v), "out": {"ok": {"text": cp(text), "ty": ty or "?"}}}])[0]
-                if not s.get("holds", False):
-                    fails.append({"backend": b, "declared": ty, "assigned": text, "why": s.get("why")})
-            elif inp.get("level") == "cstr" and type(v) is str:
-                # what the callee receives through `const char*`: up to the first NUL
-                if "\0" in v:
-                    one = run_echo([("N", "(int)std::string(%s).size()" % f[1][: len(f[1]) - len(rest)])])
-                    fails.append({"backend": b, "line": f[2].strip(), "callee_receives_chars": v.index("\0"), "string_has_chars": len(v)})
+                second.append((b, ty, text))
+            elif inp.get("level") == "cstr" and type(v) is str and "\0" in v:
+                # what the callee receives through `const char*`: g++ decides
+                lit = f[1][: len(f[1]) - len(rest)]
+                g = run_echo([("C", lit)])
+                n = g.get("out", {}).get(0)
+                if n is not None and n[1] != len(v.encode("utf-8")):
+                    fails.append({"backend": b, "line": f[2].strip(), "callee_receives_bytes": n[1], "string_has_bytes": len(v.encode("utf-8"))})
+        if second:
+            ans2 = yield [{"op": "spec", "c": const_json(v), "out": {"ok": {"text": cp(text), "ty": ty or "?"}}} for _, ty, text in second]
+            for (b, ty, text), s2 in zip(second, ans2):
+                if not s2.get("holds", False):
+                    fails.append({"backend": b, "declared": ty, "assigned": text, "why": s2.get("why", s2)})
         return {"fails": fails} if fails else None
     if kind == "names":
         tree, names = uncp(inp["tree"]), [uncp(x) for x in inp["names"]]
-        fails = []
+        live = []
         for b in BACKENDS:
             coll = BACKENDS[b]["coll"]
             src = f"ResultTTree(Select(SelectMany(EventDataset('x'), lambda e: e.{coll}('J')), lambda j: (j.pt(), j.eta())), [__N1__, __N2__], __T__, 'f.root')"
             r = run_query(b, build_ast(src, {"__N1__": names[0], "__N2__": names[1], "__T__": tree}))
             if "err" in r:
                 continue  # refused: what the property asks for a name that cannot be written
-            impl = impl_book(b, tree, [(names[0], "_v0"), (names[1], "_v1")])
-            model = model_book_lines(ctx, b, tree, [(names[0], "_v0"), (names[1], "_v1")])
-            if "err" in impl or model is None:
+            il = extract_book_lines(b, r["files"][BACKENDS[b]["main"]])
+            leaves = list(zip(names, il["vars"] + ["?", "?"]))[:2]
+            live.append((b, il, leaves))
+        reqs, spans = [], []
+        for b, il, leaves in live:
+            rq = book_requests(b, tree, leaves)
+            spans.append((len(reqs), len(rq)))
+            reqs += rq
+        ans = yield reqs
+        reqs2, want = [], []
+        for (b, il, leaves), (o, k) in zip(live, spans):
+            a = ans[o : o + k]
+            if any("bad" in x for x in a):
                 continue
-            reqs, want = [], []
+            model = compose_book(a[:-1], a[-1], leaves)
             for which in ("book", "fill"):
-                for k, m in enumerate(model[which]):
-                    if m["slot"] is not None and k < len(impl[which]):
-                        reqs.append({"op": "nameat", "off": m["slot"]["off"], "line": cp(impl[which][k])})
-                        want.append((tree if m["slot"]["kind"] == "tree" else m["name"], impl[which][k]))
-            for (w, line), a in zip(want, ctx.driver(DRIVER, reqs)):
-                if uncp(a.get("v")) != w:
-                    fails.append({"backend": b, "line": line, "literal_denotes": uncp(a.get("v")), "name": w})
-            # the same through the whole pipeline (the generated file carries the same lines)
-            main = r["files"][BACKENDS[b]["main"]]
-            if fails and not any(f["line"] in main for f in fails if f["backend"] == b):
-                fails = [f for f in fails if f["backend"] != b]
+                for j, m in enumerate(model[which]):
+                    if m["slot"] is not None and j < len(il[which]):
+                        reqs2.append({"op": "nameat", "off": m["slot"]["off"], "line": cp(il[which][j])})
+                        want.append((b, tree if m["slot"]["kind"] == "tree" else m["name"], il[which][j]))
+        ans2 = yield reqs2
+        for (b, w, line), a in zip(want, ans2):
+            if uncp(a.get("v")) != w:
+                fails.append({"backend": b, "line": line, "literal_denotes": uncp(a.get("v")), "name": w})
         return {"fails": fails} if fails else None
     if kind == "trigraph":
         v = uncp(inp["cp"])
         r = impl_const(v)
         if "ok" not in r:
             return None
-        lx = ctx.driver(DRIVER, [{"op": "lexstr", "text": cp(r["ok"]["text"]), "tri": True}])[0]
+        (lx,) = yield [{"op": "lexstr", "text": cp(r["ok"]["text"]), "tri": True}]
         if uncp(lx.get("v")) == v and not lx.get("rest"):
             return None
         g = run_echo([("S", r["ok"]["text"])], "c++14")
@@ -1319,14 +1415,20 @@ def replay_entry(ctx, e: Dict[str, Any]) -> Optional[Dict[str, Any]]:
     raise ValueError("unknown finding kind " + kind)
 
 
+def replay_entry(ctx, e: Dict[str, Any]) -> Optional[Dict[str, Any]]:
+    return run_lockstep(ctx, [entry_steps(ctx, e)])[0]
+
+
 def findings_stream(ctx):
-    for e in ctx.known_entries("known"):
-        f = replay_entry(ctx, e)
+    known, fixed = ctx.known_entries("known"), ctx.known_entries("fixed")
+    res = run_lockstep(ctx, [entry_steps(ctx, e) for e in known + fixed])
+    for e, f in zip(known, res[: len(known)]):
         ctx.count("known-findings-replayed")
         if f is not None:
             ctx.violation(key=e["key"], what=e["what"], case=e["input"], observed=f, how="replay of a listed finding")
-    for e in ctx.known_entries("fixed"):
-        f = replay_entry(ctx, e)
+        else:
+            ctx.count("known-findings-no-longer-failing")
+    for e, f in zip(fixed, res[len(known) :]):
         ctx.count("fixed-defects-replayed")
         if f is not None:
             ctx.violation(key="regressed:" + e["key"], what="REGRESSION of a repaired defect: " + e["what"], case={"stream": "finding", **e["input"]}, observed=f, how="replay of the input of a fixed defect (commit %s)" % e.get("commit"))
@@ -1380,7 +1482,8 @@ def run(ctx):
     corpus_stream(ctx)
     ctx.check_time()
     # unit stream: the six constants of the repo's tests first, then generated ones
-    consts: List[Tuple[Any, str]] = [(v, b) for b in BACKENDS for v in ["hi", 1, 1.5, True, False, ""] + INT_EDGES + FLOAT_EDGES + ['a"b', "a\\b", "a\nb", "??/", "\0", "é", "😀"]]
+    prelude = ['say "hi"\\n', -1234567890, 1.5e-07, float("inf"), "caf\u00e9 \U0001f600?", 1.7976931348623157e308, None]
+    consts: List[Tuple[Any, str]] = [(v, "atlas") for v in prelude] + [(v, b) for b in BACKENDS for v in ["hi", 1, 1.5, True, False, ""] + INT_EDGES + FLOAT_EDGES + ['a"b', "a\\b", "a\nb", "??/", "\0", "\u00e9", "\U0001f600"]]
     n_unit = 60000 if thorough else 6000
     backs = list(BACKENDS)
     for i in range(n_unit):
